@@ -238,4 +238,17 @@ def ListOfDicts_read_pickle_signature : List String := ["cls", "path"]
 /-- the calls of dataiter/list_of_dicts.py: ListOfDicts.read_pickle in the order Python makes them along the source text -/
 def ListOfDicts_read_pickle_call_order : List String := ["util.xopen", "pickle.load", "cls"]
 
+/-- dataiter/util.py: makedirs_for_file (sha256 of the function source: de66d0a817882778) -/
+def util_makedirs_for_file (truth : Term → Bool) : Out :=
+  Out.ret [] (Term.app ".mkdir" [(Term.app ".parent" [(Term.app "Path" [(Term.sym "path")])]), (Term.app "=parents" [(Term.sym "True")]), (Term.app "=exist_ok" [(Term.sym "True")])])
+
+/-- the decorators of dataiter/util.py: makedirs_for_file, outermost first -/
+def util_makedirs_for_file_decorators : List String := []
+
+/-- the signature of dataiter/util.py: makedirs_for_file: parameters in order, with the source text of their defaults -/
+def util_makedirs_for_file_signature : List String := ["path"]
+
+/-- the calls of dataiter/util.py: makedirs_for_file in the order Python makes them along the source text -/
+def util_makedirs_for_file_call_order : List String := ["Path", "Path(path).parent.mkdir"]
+
 end DI.Gen
